@@ -403,7 +403,7 @@ func doCall(q request) response {
 	ensureMethod(proc, known, "echo")
 
 	var mainCtx frugal.FContext
-	one := func(method string, hdrs, rhdrs map[string]int, argv, replyv *Val, full bool, reuse frugal.FContext) (int, string, bool) {
+	one := func(method string, hdrs, rhdrs map[string]int, argv, replyv *Val, full bool, reuse frugal.FContext) (int, string, bool, [2]int) {
 		fctx := reuse
 		if fctx == nil {
 			fctx = mkContext(hdrs, q.TimeoutMs)
@@ -470,13 +470,14 @@ func doCall(q request) response {
 				}
 			}
 		}
-		return code, msg, resOK && echo.got == 1
+		sizes := [2]int{4 + hdr + opsTotal(ops), echo.repHdr + opsTotal(echo.repOps)}
+		return code, msg, resOK && echo.got == 1, sizes
 	}
 	one(q.Method, q.Hdrs, q.RHdrs, q.Args, q.Reply, true, nil)
 	if q.Followup {
-		r.FollowCode, r.FollowMsg, r.FollowOK = one("echo", nil, nil, followArgs, followReply, false, nil)
+		r.FollowCode, r.FollowMsg, r.FollowOK, r.FollowSizes = one("echo", nil, nil, followArgs, followReply, false, nil)
 		// and once more with the very FContext (same op id, same headers) of the main call
-		r.Follow2Code, r.Follow2Msg, r.Follow2OK = one(q.Method, nil, nil, followArgs, followReply, false, mainCtx)
+		r.Follow2Code, r.Follow2Msg, r.Follow2OK, r.Follow2Sizes = one(q.Method, nil, nil, followArgs, followReply, false, mainCtx)
 	}
 	return r
 }
